@@ -106,6 +106,9 @@ struct PadMirror {
 }
 
 fn pad_data(d: i64) -> Bytes {
+    if d < 0 {
+        return Bytes::new(); // a never-written scratchpad: empty encrypted_data
+    }
     Bytes::from(format!("verif-pad-data-{d}").into_bytes())
 }
 fn pad_signing_bytes(ctr: u64, d: i64) -> Vec<u8> {
@@ -302,6 +305,13 @@ pub fn value(reg: &mut Registry, hdr: i64, body: &Value, proof: &Option<ProofOfP
     let mut v = header_bytes(hdr);
     let b = match body["t"].as_str().unwrap() {
         "chunk" => body_bytes(proof, &Chunk::new(Bytes::from(content(reg, &body["c"])))),
+        "rawchunk" => {
+            let raw = raw_chunk_body(reg, body);
+            match proof {
+                Some(p) => [vec![0x92], rmp_serde::to_vec(p).expect("proof"), raw].concat(),
+                None => raw,
+            }
+        }
         "pad" => body_bytes(proof, &pad(reg, body)),
         "tx" => body_bytes(proof, &tx(reg, body)),
         "txs" => {
@@ -322,6 +332,104 @@ pub fn value(reg: &mut Registry, hdr: i64, body: &Value, proof: &Option<ProofOfP
     v
 }
 
+fn mp_bin(b: &[u8]) -> Vec<u8> {
+    let mut v = if b.len() < 256 {
+        vec![0xc4, b.len() as u8]
+    } else if b.len() < 65536 {
+        vec![0xc5, (b.len() >> 8) as u8, b.len() as u8]
+    } else {
+        let n = b.len() as u32;
+        vec![0xc6, (n >> 24) as u8, (n >> 16) as u8, (n >> 8) as u8, n as u8]
+    };
+    v.extend_from_slice(b);
+    v
+}
+fn mp_fixstr(s: &str) -> Vec<u8> {
+    let mut v = vec![0xa0 | s.len() as u8];
+    v.extend_from_slice(s.as_bytes());
+    v
+}
+
+/// hand-built msgpack bodies for the chunk kinds: {"t":"rawchunk","shape":..,"addr":xorspec,"c":cid}
+/// -- the claimed address travels next to the bytes in several encodings; "bare" is the honest form
+fn raw_chunk_body(reg: &mut Registry, body: &Value) -> Vec<u8> {
+    let bytes = content(reg, &body["c"]);
+    let a = xor(reg, &body["addr"]);
+    let addr_ints = rmp_serde::to_vec(&a).expect("xorname"); // what derive(Serialize) writes for an address
+    let addr_bin = mp_bin(&a.0);
+    let mut hexs = vec![0xd9, 64];
+    hexs.extend_from_slice(hex::encode(a.0).as_bytes());
+    let val = mp_bin(&bytes);
+    match body["shape"].as_str().unwrap_or("bare") {
+        "arr-ints" => [vec![0x92], addr_ints, val].concat(),
+        "arr-bin" => [vec![0x92], addr_bin, val].concat(),
+        "arr-hex" => [vec![0x92], hexs, val].concat(),
+        "map-av" => [vec![0x82], mp_fixstr("address"), addr_ints, mp_fixstr("value"), val].concat(),
+        "map-va" => [vec![0x82], mp_fixstr("value"), val, mp_fixstr("address"), addr_ints].concat(),
+        _ => val,
+    }
+}
+
+/// the bytes of a stored chunk record, read WITHOUT `Chunk`'s own serde impl (a tiny msgpack reader for
+/// bare bin / [address, bin] / {address, value}): the oracle re-hashes exactly what is stored
+pub fn stored_chunk_bytes(body: &[u8]) -> Option<Vec<u8>> {
+    fn bin(b: &[u8]) -> Option<(Vec<u8>, usize)> {
+        let (n, h) = match *b.first()? {
+            0xc4 => (*b.get(1)? as usize, 2),
+            0xc5 => (((*b.get(1)? as usize) << 8) | *b.get(2)? as usize, 3),
+            0xc6 => (
+                ((*b.get(1)? as usize) << 24) | ((*b.get(2)? as usize) << 16) | ((*b.get(3)? as usize) << 8) | *b.get(4)? as usize,
+                5,
+            ),
+            _ => return None,
+        };
+        Some((b.get(h..h + n)?.to_vec(), h + n))
+    }
+    fn skip(b: &[u8]) -> Option<usize> {
+        let m = *b.first()?;
+        if let Some((_, n)) = bin(b) {
+            return Some(n);
+        }
+        match m {
+            0x00..=0x7f => Some(1),
+            0xcc => Some(2),
+            0xa0..=0xbf => Some(1 + (m & 0x1f) as usize),
+            0xd9 => Some(2 + *b.get(1)? as usize),
+            0x90..=0x9f | 0xdc => {
+                let (cnt, mut off) = if m == 0xdc { (((*b.get(1)? as usize) << 8) | *b.get(2)? as usize, 3) } else { ((m & 0x0f) as usize, 1) };
+                for _ in 0..cnt {
+                    off += skip(b.get(off..)?)?;
+                }
+                Some(off)
+            }
+            _ => None,
+        }
+    }
+    if let Some((v, _)) = bin(body) {
+        return Some(v);
+    }
+    match *body.first()? {
+        0x92 => {
+            let off = 1 + skip(body.get(1..)?)?;
+            bin(body.get(off..)?).map(|x| x.0)
+        }
+        0x82 => {
+            let mut off = 1;
+            for _ in 0..2 {
+                let klen = skip(body.get(off..)?)?;
+                let key = body.get(off + 1..off + klen)?.to_vec();
+                off += klen;
+                if key == b"value" {
+                    return bin(body.get(off..)?).map(|x| x.0);
+                }
+                off += skip(body.get(off..)?)?;
+            }
+            None
+        }
+        _ => None,
+    }
+}
+
 pub fn record(k: RecordKey, value: Vec<u8>) -> Record {
     Record { key: k, value, publisher: None, expires: None }
 }
@@ -336,9 +444,9 @@ pub fn describe(reg: &Registry, value: &[u8]) -> Value {
     let atom = |b: &[u8]| reg.atoms.get(b).cloned().unwrap_or_else(|| json!({"unknown": hex::encode(&b[..b.len().min(24)])}));
     let _ = h;
     match tag {
-        1 => match rmp_serde::from_slice::<Chunk>(body) {
-            Ok(c) => json!({"t": "chunk", "c": atom(c.value())}),
-            Err(_) => raw(),
+        1 => match stored_chunk_bytes(body) {
+            Some(b) => json!({"t": "chunk", "c": atom(&b), "sha3": hex::encode(XorName::from_content(&b).0)}),
+            None => raw(),
         },
         5 => json!({"t": "pad", "pad": atom(body)}),
         2 => match rmp_serde::from_slice::<Vec<Transaction>>(body) {
